@@ -41,6 +41,15 @@ theorem direct_exact (Ad : CRS ℚ) (h : directOk Ad = true) : DirectExact direc
   simp [direct]
   field_simp
 
+/-- the prolongation of the first coarsening step: aggregates `{0,1}`, `{2,3}` -/
+def P4c : CRS ℚ := ⟨2, #[[(0, 1)], [(0, 1)], [(1, 1)], [(1, 1)]]⟩
+
+theorem P4c_wf : P4c.WF := by decide
+
+theorem mat_P4c : matOf P4c 4 2 = Energy.Example.P4 := by
+  ext i j
+  fin_cases i <;> fin_cases j <;> simp [matOf, CRS.get, CRS.row, rowGet, P4c, Energy.Example.P4]
+
 theorem A4c_wf : A4c.WF := by decide
 theorem A4c_sq : A4c.ncols = A4c.nrows := by decide
 theorem A4c_nodup : A4c.nodupb = true := by decide
@@ -77,5 +86,42 @@ theorem build_isOk_spai : (build prm pol smSpai.model directOk A4c).toBool = tru
 theorem build_shape : (match build prm pol smGS.model directOk A4c with
     | .ok ls => ls.map (fun lv => (lv.rows, lv.solve.map CRS.rows))
     | .error _ => []) = [(4, none), (2, none), (1, some #[[(0, 2)]])] := by decide +kernel
+
+/-- decidable equality of rational CRS matrices (for kernel evaluation of the statements below) -/
+instance : DecidableEq (CRS ℚ) := fun a b =>
+  decidable_of_iff (a.ncols = b.ncols ∧ a.rows = b.rows) (by cases a; cases b; simp)
+
+/-- the level matrices are the 1D Laplacians of sizes 4, 2 and `[[2]]` (all three smoothers) -/
+theorem build_levels_gs : (match build prm pol smGS.model directOk A4c with
+    | .ok ls => ls.map levelMatrix
+    | .error _ => []) = [some A4c, some Bridge.Example.A2c, some Bridge.Example.A1c] := by decide +kernel
+theorem build_levels_jac : (match build prm pol smJac.model directOk A4c with
+    | .ok ls => ls.map levelMatrix
+    | .error _ => []) = [some A4c, some Bridge.Example.A2c, some Bridge.Example.A1c] := by decide +kernel
+theorem build_levels_spai : (match build prm pol smSpai.model directOk A4c with
+    | .ok ls => ls.map levelMatrix
+    | .error _ => []) = [some A4c, some Bridge.Example.A2c, some Bridge.Example.A1c] := by decide +kernel
+
+/-- a property of the level matrices follows from the list of level matrices -/
+theorem levelMatrices_of_map {S : Type} (Q : ∀ n : ℕ, Matrix (Fin n) (Fin n) ℚ → Prop) (ls : List (Level ℚ S))
+    (Ms : List (CRS ℚ)) (h : ls.map levelMatrix = Ms.map some)
+    (hQ : ∀ M ∈ Ms, Q M.nrows (matOf M M.nrows M.nrows)) : LevelMatrices Q ls := by
+  intro lv hlv M hM n hn
+  subst hn
+  have : some M ∈ ls.map levelMatrix := hM ▸ List.mem_map_of_mem hlv
+  rw [h, List.mem_map] at this
+  obtain ⟨M', hM', he⟩ := this
+  cases he
+  exact hQ M hM'
+
+/-- the three level matrices are weakly diagonally dominant -/
+theorem levels_wdd : ∀ M ∈ [A4c, Bridge.Example.A2c, Bridge.Example.A1c],
+    QWeakDD M.nrows (matOf M M.nrows M.nrows) := by
+  intro M hM
+  simp only [List.mem_cons, List.mem_nil_iff, or_false] at hM
+  rcases hM with rfl | rfl | rfl
+  · show WeakDD (matOf A4c 4 4); rw [mat_A4c]; exact Energy.Example.wdd_A4
+  · show WeakDD (matOf Bridge.Example.A2c 2 2); rw [Bridge.Example.mat_A2c]; exact Energy.Example.wdd_A2
+  · show WeakDD (matOf Bridge.Example.A1c 1 1); rw [Bridge.Example.mat_A1c]; exact Energy.Example.wdd_A1
 
 end Amgcl.Energy.Bridge.Ex
